@@ -47,6 +47,8 @@ _SAFE_CALLS = {
     "sum": sum,
 }
 
+_BUILTIN_TYPES = {"str": str, "int": int, "list": list, "tuple": tuple, "dict": dict, "set": set, "bool": bool, "float": float, "frozenset": frozenset, "bytes": bytes}
+
 _SAFE_METHODS = {
     (dict, "items"),
     (dict, "keys"),
@@ -66,6 +68,12 @@ _SAFE_METHODS = {
     (str, "upper"),
     (str, "replace"),
     (str, "format"),
+    (str, "isdigit"),
+    (str, "startswith"),
+    (str, "endswith"),
+    (str, "lstrip"),
+    (str, "rstrip"),
+    (str, "splitlines"),
 }
 
 
@@ -299,6 +307,17 @@ class Folder:
         return out
 
     def _call(self, n: ast.Call, mod: Module, env: Dict[str, Any]) -> Any:
+        if isinstance(n.func, ast.Name) and n.func.id == "isinstance" and n.func.id not in env and len(n.args) == 2 and not n.keywords:
+            # isinstance(<folded value>, <builtin type or tuple of builtin types>)
+            val = self._f(n.args[0], mod, env)
+            tnodes = n.args[1].elts if isinstance(n.args[1], ast.Tuple) else [n.args[1]]
+            types = []
+            for t in tnodes:
+                if isinstance(t, ast.Name) and t.id in _BUILTIN_TYPES and t.id not in env and self.prog.resolve_name(mod, t.id) is None:
+                    types.append(_BUILTIN_TYPES[t.id])
+                else:
+                    raise Unfoldable("isinstance type")
+            return isinstance(val, tuple(types))
         args = self._elts(n.args, mod, env)
         kwargs = {}
         for kw in n.keywords:
